@@ -153,6 +153,7 @@ func (st *State) clone() *State {
 
 // Exec verifies one function against its contract.
 type Exec struct {
+	noRankCall bool // the contract call being made is exempt from the termination obligation (norank)
 	w        *World
 	cx       *Cx
 	fn       *ssa.Function
